@@ -40,7 +40,7 @@ theorem noWrite_of_counterFresh {r : MemRef} {body : List Instr} (h : counterFre
   rcases hxd with rfl | rfl <;> simp [Instr.avoids, hdr] at this
 
 private theorem wrap_at_sub (body : List Instr) (c : MemRef) (s : Target) (n : Nat) :
-    (wrapBody body c s n)[2 + body.length]? = some (.sub { name := c.name, index := 0 } 1) := by
+    (wrapBody body c s n)[2 + body.length]? = some (.sub c 1) := by
   simp only [wrapBody]
   rw [List.getElem?_append_right (by simp; omega)]
   simp
@@ -61,12 +61,10 @@ private theorem wrap_at_end (body : List Instr) (c : MemRef) (s : Target) (n : N
 body can be executed `k + 1` times in a row (`Iter`), the wrapped program performs exactly those
 executions and then runs past its end, with the counter at 0. -/
 theorem loop_from_top {body : List Instr} {c : MemRef} {s : Target} {n : Nat}
-    (hc : c.index = 0) (hfresh : labelFresh s body = true) (hw : NoWrite c body) :
+    (hfresh : labelFresh s body = true) (hw : NoWrite c body) :
     ∀ (k : Nat) (m : Mem) (T : List Instr) (mf : Mem),
       m c = Int.ofNat (k + 1) → Iter body c (k + 1) m T mf →
       Steps (wrapBody body c s n) 2 m T (4 + body.length) mf ∧ mf c = 0 := by
-  have hc0 : ({ name := c.name, index := 0 } : MemRef) = c := by
-    cases c; simp_all
   intro k
   induction k with
   | zero =>
@@ -80,7 +78,7 @@ theorem loop_from_top {body : List Instr} {c : MemRef} {s : Target} {n : Nat}
       -- SUB
       have hsub : step (wrapBody body c s n) (2 + body.length) m' =
           .next (3 + body.length) (m'.set c (m' c - 1)) (some (.sub c 1)) := by
-        simp only [step, wrap_at_sub, hc0]
+        simp only [step, wrap_at_sub]
         simp only [Step.next.injEq, and_true]; omega
       -- JUMP-WHEN falls through (counter is 0)
       have hval : (m'.set c (m' c - 1)) c = 0 := by
@@ -102,7 +100,7 @@ theorem loop_from_top {body : List Instr} {c : MemRef} {s : Target} {n : Nat}
       have h1 := embed_steps (c := c) (n := n) hfresh hb
       have hsub : step (wrapBody body c s n) (2 + body.length) m' =
           .next (3 + body.length) (m'.set c (m' c - 1)) (some (.sub c 1)) := by
-        simp only [step, wrap_at_sub, hc0]
+        simp only [step, wrap_at_sub]
         simp only [Step.next.injEq, and_true]; omega
       have hval : (m'.set c (m' c - 1)) c = Int.ofNat (k + 1) := by
         simp [Mem.set, hpres, hm]
@@ -127,7 +125,7 @@ in which the counter holds `n` — `Iter` — then the wrapped program, started 
 instruction, executes MOVE counter n, then exactly those n body executions (each followed by the
 SUB), and then stops by running past its last instruction with the counter at 0. -/
 theorem C33_loop_general {body : List Instr} {c : MemRef} {s : Target} {n : Nat} (hn : 1 ≤ n)
-    (hc : c.index = 0) (hfresh : labelFresh s body = true) (hw : NoWrite c body)
+    (hfresh : labelFresh s body = true) (hw : NoWrite c body)
     {m0 mf : Mem} {T : List Instr}
     (hit : Iter body c n (m0.set c (Int.ofNat n)) T mf) :
     Finishes (wrapBody body c s n) 0 m0 (.move c (Int.ofNat n) :: T) mf ∧ mf c = 0 := by
@@ -138,7 +136,7 @@ theorem C33_loop_general {body : List Instr} {c : MemRef} {s : Target} {n : Nat}
   have hlab : step (wrapBody body c s (k + 1)) 1 (m0.set c (Int.ofNat (k + 1))) =
       .next 2 (m0.set c (Int.ofNat (k + 1))) none := by
     simp [step, wrapBody]
-  obtain ⟨hloop, hz⟩ := loop_from_top (n := k + 1) hc hfresh hw k _ _ _ (by simp [Mem.set]) hit
+  obtain ⟨hloop, hz⟩ := loop_from_top (n := k + 1) hfresh hw k _ _ _ (by simp [Mem.set]) hit
   refine ⟨⟨4 + body.length, ?_, ?_⟩, hz⟩
   · have := ((Steps.single hmove).trans (Steps.single hlab)).trans hloop
     simpa [evs] using this
@@ -193,7 +191,7 @@ but LABEL/JUMP*/HALT): for every n ≥ 1, every body that does not access the co
 every initial memory, the wrapped program halts (runs past its end) and its event trace is
 MOVE counter n followed by (body, SUB counter 1) repeated exactly n times; the counter ends at 0. -/
 theorem C33_loop_straight {body : List Instr} {c : MemRef} {s : Target} {n : Nat} (hn : 1 ≤ n)
-    (hc : c.index = 0) (hs : straightLine body = true) (hcf : counterFresh c.name body = true)
+    (hs : straightLine body = true) (hcf : counterFresh c.name body = true)
     (m0 : Mem) :
     ∃ mf, Finishes (wrapBody body c s n) 0 m0
         (.move c (Int.ofNat n) :: repeatList (body ++ [.sub c 1]) n) mf ∧ mf c = 0 := by
@@ -203,15 +201,15 @@ theorem C33_loop_straight {body : List Instr} {c : MemRef} {s : Target} {n : Nat
     have := List.all_eq_true.mp hs x hx
     cases x <;> simp [Instr.isControl] at this <;> simp [Instr.targets]
   obtain ⟨mf, hi⟩ := iter_straight hs c n (m0.set c (Int.ofNat n))
-  exact ⟨mf, C33_loop_general hn hc hfresh (noWrite_of_counterFresh hcf) hi⟩
+  exact ⟨mf, C33_loop_general hn hfresh (noWrite_of_counterFresh hcf) hi⟩
 
 /-- the same, for the executable interpreter: with enough fuel `run` reports `done` and that trace -/
 theorem C33_run_straight {body : List Instr} {c : MemRef} {s : Target} {n : Nat} (hn : 1 ≤ n)
-    (hc : c.index = 0) (hs : straightLine body = true) (hcf : counterFresh c.name body = true)
+    (hs : straightLine body = true) (hcf : counterFresh c.name body = true)
     (m0 : Mem) :
     ∃ fuel mf, ∀ extra, run (wrapBody body c s n) (fuel + extra) 0 m0 [] =
       .done mf (.move c (Int.ofNat n) :: repeatList (body ++ [.sub c 1]) n) := by
-  obtain ⟨mf, ⟨pc', hst, hd⟩, _⟩ := C33_loop_straight (s := s) hn hc hs hcf m0
+  obtain ⟨mf, ⟨pc', hst, hd⟩, _⟩ := C33_loop_straight (s := s) hn hs hcf m0
   obtain ⟨fuel, hf⟩ := run_of_steps hst hd
   exact ⟨fuel, mf, fun extra => by simpa using hf extra []⟩
 
@@ -366,25 +364,25 @@ private theorem addInstructions_instrs (p : Program) (is : List Instr) :
 INTEGER[1] (IndexMap insert), every other definition is untouched. -/
 theorem C33_shape (p : Program) (c : MemRef) (t : Target) (n : Nat) (hn : 2 ≤ n) :
     wrapInLoop p c t n =
-      { regions := insertRegion c.name { ty := "INTEGER", len := 1, sharing := none } p.regions,
+      { regions := insertRegion c.name { ty := "INTEGER", len := counterLen c, sharing := none } p.regions,
         defs := p.defs,
         body := wrapBody p.body c t n } := by
   obtain ⟨k, rfl⟩ : ∃ k, n = k + 2 := ⟨n - 2, by omega⟩
   simp only [wrapInLoop, loopInstructions]
-  have : ([Added.declare c.name { ty := "INTEGER", len := 1, sharing := none },
+  have : ([Added.declare c.name { ty := "INTEGER", len := counterLen c, sharing := none },
         Added.instr (Instr.move c (Int.ofNat (k + 2))), Added.instr (Instr.label t)] ++
         List.map Added.instr p.body ++
-        [Added.instr (Instr.sub { name := c.name, index := 0 } 1), Added.instr (Instr.jumpWhen t c)])
-      = Added.declare c.name { ty := "INTEGER", len := 1, sharing := none } ::
+        [Added.instr (Instr.sub c 1), Added.instr (Instr.jumpWhen t c)])
+      = Added.declare c.name { ty := "INTEGER", len := counterLen c, sharing := none } ::
         (([Instr.move c (Int.ofNat (k + 2)), Instr.label t] ++ p.body ++
-          [Instr.sub { name := c.name, index := 0 } 1, Instr.jumpWhen t c]).map Added.instr) := by
+          [Instr.sub c 1, Instr.jumpWhen t c]).map Added.instr) := by
     simp
   rw [this]
   simp only [addInstructions, List.foldl_cons]
   have h2 := addInstructions_instrs (addInstruction (cloneWithoutBody p)
-    (Added.declare c.name { ty := "INTEGER", len := 1, sharing := none }))
+    (Added.declare c.name { ty := "INTEGER", len := counterLen c, sharing := none }))
     ([Instr.move c (Int.ofNat (k + 2)), Instr.label t] ++ p.body ++
-          [Instr.sub { name := c.name, index := 0 } 1, Instr.jumpWhen t c])
+          [Instr.sub c 1, Instr.jumpWhen t c])
   simp only [addInstructions] at h2
   rw [h2]
   simp [addInstruction, cloneWithoutBody, wrapBody]
@@ -422,7 +420,7 @@ theorem C33_definitions_preserved (p : Program) (c : MemRef) (t : Target) (n : N
 which all keep their place -/
 theorem C33_fresh_region_appended (p : Program) (c : MemRef) (t : Target) (n : Nat) (hn : 2 ≤ n)
     (hfresh : lookupRegion c.name p.regions = none) :
-    (wrapInLoop p c t n).regions = p.regions ++ [(c.name, { ty := "INTEGER", len := 1, sharing := none })] := by
+    (wrapInLoop p c t n).regions = p.regions ++ [(c.name, { ty := "INTEGER", len := counterLen c, sharing := none })] := by
   rw [C33_shape p c t n hn]
   simp only
   generalize p.regions = rs at hfresh
@@ -447,46 +445,31 @@ theorem C33_zero (p : Program) (c : MemRef) (t : Target) :
 and an index-0 counter reference, the body of the program returned by `wrap_in_loop` halts from
 any initial memory with trace MOVE, then (body, SUB) n times. -/
 theorem C33_wrapInLoop_runs (p : Program) (c : MemRef) (t : Target) (n : Nat) (hn : 2 ≤ n)
-    (hc : c.index = 0) (hs : straightLine p.body = true) (hcf : counterFresh c.name p.body = true)
+    (hs : straightLine p.body = true) (hcf : counterFresh c.name p.body = true)
     (m0 : Mem) :
     ∃ mf, Finishes (wrapInLoop p c t n).body 0 m0
         (.move c (Int.ofNat n) :: repeatList (p.body ++ [.sub c 1]) n) mf ∧ mf c = 0 := by
   rw [C33_shape p c t n hn]
-  exact C33_loop_straight (by omega) hc hs hcf m0
+  exact C33_loop_straight (by omega) hs hcf m0
 
-/-! ### The asymmetry in the code: a counter reference with a non-zero index never terminates -/
+/-! ### A counter reference with a non-zero index
 
-/-- With `loop_count_reference = cnt[1]` the code emits `MOVE cnt[1] n … SUB cnt[0] 1;
-JUMP-WHEN @s cnt[1]`: the tested word is never decremented.  Concrete witness (empty body, n = 2):
-after any amount of fuel the run has not finished. -/
-theorem C33_nonzero_index_diverges (fuel : Nat) :
-    ∃ tr, run (wrapBody [] ⟨"cnt", 1⟩ (.fixed "s") 2) fuel 0 zeroMem [] = .outOfFuel tr := by
-  -- invariant: cnt[1] = 2 at pcs 1, 2, 3
-  have key : ∀ fuel (m : Mem) (tr : List Instr), m ⟨"cnt", 1⟩ = 2 → ∀ pc, (pc = 1 ∨ pc = 2 ∨ pc = 3) →
-      ∃ tr', run (wrapBody [] ⟨"cnt", 1⟩ (.fixed "s") 2) fuel pc m tr = .outOfFuel tr' := by
-    intro fuel
-    induction fuel with
-    | zero => intro m tr _ pc _; exact ⟨tr, rfl⟩
-    | succ fuel ih =>
-      intro m tr hm pc hpc
-      rcases hpc with rfl | rfl | rfl
-      · simp only [run, step, wrapBody]
-        exact ih m _ hm 2 (by simp)
-      · simp only [run, step, wrapBody]
-        refine ih _ _ ?_ 3 (by simp)
-        simp [Mem.set, hm]
-      · simp only [run, step, wrapBody]
-        simp only [List.nil_append, List.cons_append, List.getElem?_cons_succ, List.getElem?_cons_zero]
-        rw [if_pos (by rw [hm]; decide)]
-        simp only [jumpTo, findLabel]
-        simp only [reduceCtorEq, if_false, if_true, Option.map_some]
-        exact ih m _ hm 1 (by simp)
-  cases fuel with
-  | zero => exact ⟨[], rfl⟩
-  | succ fuel =>
-    simp only [run, step, wrapBody]
-    refine key fuel _ _ ?_ 1 (by simp)
-    simp [Mem.set]
+Before /repo 0cfdaad the code emitted `MOVE cnt[1] n … SUB cnt[0] 1; JUMP-WHEN @s cnt[1]` for
+`loop_count_reference = cnt[1]`: the tested word was never decremented and the wrapped program never terminated
+(the earlier version of this file proved that divergence as `C33_nonzero_index_diverges`). With the repair the
+theorems above hold for every index; the concrete former witness now terminates after exactly n rounds. -/
+
+/-- the former divergence witness (empty body, `cnt[1]`, n = 2) now finishes with the expected trace -/
+theorem C33_nonzero_index_terminates :
+    (match run (wrapBody [] ⟨"cnt", 1⟩ (.fixed "s") 2) 100 0 zeroMem [] with
+     | .done _ tr => tr == [.move ⟨"cnt", 1⟩ 2, .sub ⟨"cnt", 1⟩ 1, .sub ⟨"cnt", 1⟩ 1]
+     | _ => false) = true := by
+  decide
+
+/-- the declared counter region is large enough for the given reference -/
+theorem C33_counter_region_holds_reference (c : MemRef) (h : c.index < 18446744073709551615) :
+    c.index < counterLen c := by
+  unfold counterLen; omega
 
 /-! ### Non-vacuity -/
 
